@@ -123,6 +123,7 @@ impl Session {
             v if v.starts_with("cli.") => self.client.dispatch(v, head, payload),
             #[cfg(feature = "threaded-websockets")]
             "ws.read" => ws::cmd_ws_read(head),
+            "ws.write" => ws::cmd_ws_write(head),
             _ => Err(format!("unknown verb {}", verb)),
         }
     }
